@@ -33,4 +33,6 @@ def run_case(case):
         out.viols = [v for v in out.viols if v.rule.startswith(PREFIX) or v.rule == "unexpected-exception"]
     out.nontrivial = bool((stats["absorbed"] > 0 and stats["residue_checked"] > 0) or stats["native_timeout_fired"] > 0)
     out.labels = [k for k, v in stats.items() if v] + ["config-" + case["config"]]
+    if case.get("pat"):
+        out.labels.append("pattern-" + case["pat"])
     return out
